@@ -33,7 +33,7 @@ func (c09) Meta() kit.Meta {
 			"distinct = distinct (history, schedule). non-trivial = an update hit a predicate while a cursor on that predicate was open and later stepped, or an in-query loop updated the predicate it enumerates.",
 		Assumptions: []string{
 			"clause-store model: per predicate an ordered list of (uid, clause); a cursor takes its snapshot when its first answer is requested (that is when the goal is called); a retract cursor removes the uid it unified with if it is still there",
-			"when a retract cursor reaches a snapshot clause that something else already removed, yielding it or skipping it are both accepted (the statement does not say); an in-query run that meets this situation is compared only up to that point",
+			"when a retract/1 enumeration reaches a clause of its call-time snapshot that something else has removed meanwhile, it still answers with it (a further match of the call-time snapshot) and removes nothing (every clause is removed at most once)",
 			"after abolish/1 a call may answer nothing or raise existence_error; retractall/1 of a non-existent procedure is not generated",
 			"a cancelled in-query loop must leave the database in the model's state after the last reported step or after the one following it (the cancel may land between an update and its report)",
 		},
@@ -390,9 +390,10 @@ func (cu *c09Cursor) candidates(st *c09Store) []c09Cand {
 			continue
 		}
 		if retract && !st.live(cu.pred, c.uid) {
-			// already removed by something else: yielding it or skipping it are both accepted
+			// already removed by something else: it is still a match of the call-time snapshot - the step answers with it and
+			// removes nothing ("further matches of the call-time snapshot on backtracking", "removed at most once")
 			out = append(out, c09Cand{ans: c09Answer(cu.kind, cu.k, c), pos: i + 1, ghost: true})
-			continue
+			return out
 		}
 		out = append(out, c09Cand{ans: c09Answer(cu.kind, cu.k, c), pos: i + 1, uid: c.uid})
 		return out
@@ -808,7 +809,8 @@ func c09ExecInQuery(r *kit.Run, sc *c09Scenario, st *c09Store) {
 
 	// model interpretation: events with the database after each
 	var events []c09Event
-	ambiguous := -1 // index of the first event that may differ because of the ghost-retract ambiguity
+	ambiguous := -1 // index of the first event that is not modelled (see below)
+	ghosts := 0
 	aborted := ""
 	type binding struct{ k string }
 	var solve func(i int, b binding) bool // returns false to abort (error raised)
@@ -819,9 +821,7 @@ func c09ExecInQuery(r *kit.Run, sc *c09Scenario, st *c09Store) {
 				continue
 			}
 			if !st.live(pred, c.uid) {
-				if ambiguous < 0 {
-					ambiguous = len(events)
-				}
+				ghosts++ // still a match of the snapshot: the step is taken, nothing is removed
 			}
 			st.remove(pred, c.uid)
 			if !each(c) {
@@ -971,8 +971,10 @@ func c09ExecInQuery(r *kit.Run, sc *c09Scenario, st *c09Store) {
 	r.Out.NonTrivial = self && len(events) >= 2
 
 	limit := len(events)
+	if ghosts > 0 {
+		r.Probe("in-query-retract-reached-a-clause-removed-meanwhile")
+	}
 	if ambiguous >= 0 {
-		r.Probe("in-query-ambiguous-ghost-retract")
 		limit = ambiguous
 	}
 	cancelled := err != nil && errors.Is(err, context.Canceled)
@@ -1361,20 +1363,14 @@ func c09ExecZero(r *kit.Run, sc *c09Scenario) {
 					break
 				}
 			}
-			if op == 3 && ghost {
-				// both readings agree once the enumeration is over: every snapshot clause is gone, nothing else is
-				for pos < len(snapshot) {
-					remove(snapshot[pos])
-					pos++
-				}
-			}
+
 		case 1:
 			ok := interp.QuerySolution("retract(z0).").Err() == nil
 			hist = append(hist, fmt.Sprintf("retract->%v", ok))
 			if ghost {
 				murky = true // which clause is the first one now depends on the reading: the final count is not asserted either
 			}
-			if ok != (len(db) > 0) && !ghost {
+			if ok != (len(db) > 0) {
 				r.Fail("answer-mismatch", "zero-arity:single-retract", "retract(z0) succeeded: %v with %d clauses in the database (history %v)", ok, len(db), hist)
 				return
 			}
@@ -1385,7 +1381,8 @@ func c09ExecZero(r *kit.Run, sc *c09Scenario) {
 			add()
 			hist = append(hist, "assertz")
 		}
-		if !ghost || (i == nOps && done && !murky) {
+		_ = murky
+		{
 			if got := count(); got != len(db) {
 				r.Fail("db-mismatch", "zero-arity:clause-count", "z0/0 has %d clauses, the model %d (initially %d duplicates, one retract(z0) enumeration open; history %v)", got, len(db), n, hist)
 				return
